@@ -237,13 +237,14 @@ class Gen:
 
     def ewise(self, tv: TV, cls: str, depth: int, kinds=("ewise",), mul_ok=True):
         """element-wise expression; constant-only operator calls are avoided (engine finding D51)"""
-        from .triggers import _has_col, _walk
+        from .triggers import _has_col, _valfree, _walk
 
         for _ in range(4):
             e = self._ewise(tv, cls, depth, kinds, mul_ok)
             bad = []
             _walk(e, lambda d: bad.append(1) if ("fn" in d and d.get("args") and not _has_col(d)) or ("case" in d and not _has_col(d))
                   or ("case" in d and any(not _has_col(b) for b in d["case"]))      # a literal-only when/then branch (engine finding D51)
+                  or ("fn" in d and d.get("args") and all(_valfree(a) for a in d["args"]))   # operator over values no column reaches (D51)
                   or ("cast" in d and not _has_col(d)) else None)
             if not bad:
                 return e
